@@ -393,6 +393,28 @@ theorem runBody_spec (U : Universe) {s : St} (I : Inv s) (g : Gen) :
       split
       · exact ⟨I1.frame rfl rfl rfl rfl rfl, (G0.trans G1).trans ⟨⟨[], by simp [St.push]⟩, rfl⟩⟩
       · exact ⟨I1.frame rfl rfl rfl rfl rfl, (G0.trans G1).trans ⟨⟨[], by simp⟩, rfl⟩⟩
+      · exact ⟨I1.frame rfl rfl rfl rfl rfl, (G0.trans G1).trans ⟨⟨[], by simp⟩, rfl⟩⟩
+
+/-- bodies of a program that never raises never crash -/
+theorem runBody_no_crash (U : Universe) [hnr : NoRaise U] (s : St) (g : Gen) (e : String) :
+    (runBody U s g).2 ≠ .crash e := by
+  unfold runBody
+  split
+  · simp
+  · dsimp only
+    split
+    · simp
+    · rename_i st hs
+      have hmem : st ∈ (U.script g).getD [] := List.mem_of_getElem? hs
+      cases hsc : U.script g with
+      | none => simp [hsc] at hmem
+      | some sc =>
+        simp only [hsc, Option.getD_some] at hmem
+        have := hnr.out g sc hsc st hmem
+        split
+        · simp
+        · simp
+        · rename_i e' he; exact absurd he (this e')
 
 /-! ### the run loop -/
 
@@ -509,6 +531,50 @@ def afterBody (b : St × Next) (g : Gen) (p : Nat) : St :=
   match b.2 with
   | .stop v => finishHead b.1 g p v
   | .yield w => if positive w then pauseHead b.1 g (w.getD 0 + b.1.timer) else rotHead b.1
+  | .crash _ => b.1
+
+/-- the body of the head `g` raised: `g` leaves every table, the sentinel comes back to the front
+: coroutines.py:254-263 -/
+def crashDrop (s : St) (g : Gen) : St :=
+  { dropHead s g with active := frontNone s.active.tail }
+
+/-- what an iteration whose body ran makes of it -/
+def iterAfter (b : St × Next) (g : Gen) (p : Nat) : Iter :=
+  match b.2 with
+  | .crash e => .crash (crashDrop b.1 g) e
+  | _ => .next (afterBody b g p)
+
+theorem frontNone_perm (l : List (Option Gen)) : (frontNone l).Perm l := by
+  unfold frontNone
+  exact List.perm_append_comm.trans (by rw [List.takeWhile_append_dropWhile])
+
+theorem dropWhile_head {l : List (Option Gen)} (h : none ∈ l) :
+    ∃ r, l.dropWhile (·.isSome) = none :: r := by
+  induction l with
+  | nil => simp at h
+  | cons a t ih =>
+    cases a with
+    | none => exact ⟨t, by simp [List.dropWhile]⟩
+    | some x =>
+      simp only [List.mem_cons, reduceCtorEq, false_or] at h
+      obtain ⟨r, hr⟩ := ih h
+      exact ⟨r, by simp [List.dropWhile, hr]⟩
+
+theorem frontNone_head {l : List (Option Gen)} (h : none ∈ l) : ∃ rest, frontNone l = none :: rest := by
+  obtain ⟨r, hr⟩ := dropWhile_head h
+  exact ⟨r ++ l.takeWhile (·.isSome), by simp [frontNone, hr]⟩
+
+/-- a permutation of the deque keeps the invariant -/
+theorem Inv.perm_active {s : St} (I : Inv s) {a : List (Option Gen)} (h : a.Perm s.active) :
+    Inv { s with active := a } := by
+  constructor
+  · rw [h.count_eq]; exact I.sentinel
+  · intro x; have := I.once x; simp only [cntA, cntW] at *; rw [h.count_eq]; exact this
+  · intro x hx; have := I.absent x hx; simp only [cntA, cntW] at *; rw [h.count_eq]; exact this
+  · intro x hx; have := I.runnable x hx; simp only [cntA] at *; rw [h.count_eq]; exact this
+  · exact I.paused
+  · exact I.marked
+  · exact I.promised
 
 theorem iter_exit (U : Universe) {s : St} {tl : List (Option Gen)} (h : s.active = none :: tl) :
     iter U s = .exit := by
@@ -527,12 +593,12 @@ theorem iter_drop (U : Universe) {s : St} (I : Inv s) {g : Gen} {tl : List (Opti
   obtain ⟨p, hp⟩ := I.promise_of_gens hg
   simp [iter, h, hk, hg, hp, dropHead]
 
-theorem iter_run (U : Universe) {s : St} (I : Inv s) {g : Gen} {tl : List (Option Gen)}
+theorem iter_run_gen (U : Universe) {s : St} (I : Inv s) {g : Gen} {tl : List (Option Gen)}
     (h : s.active = some g :: tl) (hk : s.kill g = false) :
     ∃ extra p, (runBody U s g).1.active = some g :: (tl ++ extra) ∧
       (runBody U s g).1.promises g = some p ∧ (runBody U s g).1.gens g = some none ∧
       Inv (runBody U s g).1 ∧ (runBody U s g).1.timer = s.timer ∧
-      iter U s = .next (afterBody (runBody U s g) g p) := by
+      iter U s = iterAfter (runBody U s g) g p := by
   obtain ⟨I1, ⟨extra, hact⟩, htimer⟩ := runBody_spec U I g
   rw [h] at hact
   have hg := I1.gens_of_active (g := g) (by simp [hact])
@@ -545,10 +611,40 @@ theorem iter_run (U : Universe) {s : St} (I : Inv s) {g : Gen} {tl : List (Optio
   simp only at hact hg hp
   cases nx with
   | stop v =>
-    simp [hact, hg, hp, afterBody, finishHead, dropHead]
+    simp [hact, hg, hp, iterAfter, afterBody, finishHead, dropHead]
   | yield w =>
-    simp only [afterBody]
+    simp only [iterAfter, afterBody]
     split <;> simp [pauseHead, rotHead]
+  | crash e =>
+    have hn := I1.none_mem_tail (by rw [hb]; exact hact)
+    have hn2 : none ∈ tl ∨ none ∈ extra := List.mem_append.mp hn
+    simp [hact, hg, hp, iterAfter, crashDrop, dropHead]
+    intro h1
+    exact hn2.resolve_left h1
+
+theorem crashDrop_inv {s : St} (I : Inv s) {g : Gen} {tl : List (Option Gen)}
+    (h : s.active = some g :: tl) :
+    Inv (crashDrop s g) ∧ ∃ rest, (crashDrop s g).active = none :: rest := by
+  have I1 := I.drop_head h
+  have hn := I.none_mem_tail h
+  have hp : (frontNone tl).Perm tl := frontNone_perm tl
+  refine ⟨(I1.perm_active hp).frame rfl (by simp [crashDrop, h]) rfl rfl rfl, ?_⟩
+  obtain ⟨rest, hr⟩ := frontNone_head hn
+  exact ⟨rest, by simp [crashDrop, h, hr]⟩
+
+theorem iter_run (U : Universe) [NoRaise U] {s : St} (I : Inv s) {g : Gen} {tl : List (Option Gen)}
+    (h : s.active = some g :: tl) (hk : s.kill g = false) :
+    ∃ extra p, (runBody U s g).1.active = some g :: (tl ++ extra) ∧
+      (runBody U s g).1.promises g = some p ∧ (runBody U s g).1.gens g = some none ∧
+      Inv (runBody U s g).1 ∧ (runBody U s g).1.timer = s.timer ∧
+      iter U s = .next (afterBody (runBody U s g) g p) := by
+  obtain ⟨extra, p, h1, h2, h3, h4, h5, h6⟩ := iter_run_gen U I h hk
+  refine ⟨extra, p, h1, h2, h3, h4, h5, ?_⟩
+  rw [h6]
+  unfold iterAfter
+  split
+  · rename_i e he; exact absurd he (runBody_no_crash U s g e)
+  · rfl
 
 theorem dropHead_inv {s : St} (I : Inv s) {g : Gen} {tl : List (Option Gen)}
     (h : s.active = some g :: tl) : Inv (dropHead s g) := by
@@ -563,21 +659,25 @@ theorem afterBody_inv {b : St × Next} (I : Inv b.1) {g : Gen} {tl : List (Optio
   · split
     · exact I.pause_head _ h
     · exact I.rotate
+  · exact I
 
 theorem afterBody_front {b : St × Next} {g : Gen} {tl : List (Option Gen)} (p : Nat)
-    (h : b.1.active = some g :: tl) (hn : none ∈ tl) : front (afterBody b g p).active = front tl := by
+    (h : b.1.active = some g :: tl) (hn : none ∈ tl) (hnc : ∀ e, b.2 ≠ .crash e) :
+    front (afterBody b g p).active = front tl := by
   unfold afterBody
   split
   · simp [finishHead, dropHead, h]
   · split
     · simp [pauseHead, h]
     · simp [rotHead, h, rotl, front_append _ hn]
+  · rename_i e he; exact absurd he (hnc e)
 
-/-- one iteration keeps the invariant and consumes one entry in front of the sentinel; it never
-raises -/
-theorem iter_spec (U : Universe) {s : St} (I : Inv s) :
+/-- one iteration keeps the invariant; it consumes one entry in front of the sentinel, or the body
+it runs raises; the bookkeeping itself never raises -/
+theorem iter_spec_gen (U : Universe) {s : St} (I : Inv s) :
     (iter U s = .exit ∧ front s.active = 0) ∨
-    (∃ s', iter U s = .next s' ∧ Inv s' ∧ front s'.active + 1 = front s.active) := by
+    (∃ s', iter U s = .next s' ∧ Inv s' ∧ front s'.active + 1 = front s.active) ∨
+    (∃ s' e, iter U s = .crash s' e ∧ Inv s' ∧ ∃ rest, s'.active = none :: rest) := by
   cases h : s.active with
   | nil => have := I.sentinel; simp [h] at this
   | cons a tl =>
@@ -588,16 +688,57 @@ theorem iter_spec (U : Universe) {s : St} (I : Inv s) :
       have hn := I.none_mem_tail h
       cases hk : s.kill g with
       | true =>
-        refine ⟨_, iter_drop U I h hk, dropHead_inv I h, ?_⟩
+        refine .inl ⟨_, iter_drop U I h hk, dropHead_inv I h, ?_⟩
         simp [dropHead, h, front]
       | false =>
-        obtain ⟨extra, p, hact, _, _, I1, _, hit⟩ := iter_run U I h hk
-        refine ⟨_, hit, afterBody_inv I1 p hact, ?_⟩
-        rw [afterBody_front p hact (by simp [hn]), front_append _ hn]
-        simp [front]
+        obtain ⟨extra, p, hact, _, _, I1, _, hit⟩ := iter_run_gen U I h hk
+        rw [hit]
+        unfold iterAfter
+        split
+        · have := crashDrop_inv I1 hact
+          exact .inr ⟨_, _, rfl, this.1, this.2⟩
+        · rename_i hnc
+          refine .inl ⟨_, rfl, afterBody_inv I1 p hact, ?_⟩
+          rw [afterBody_front p hact (by simp [hn]) (fun e he => hnc e he), front_append _ hn]
+          simp [front]
 
-theorem loop_spec (U : Universe) (fuel : Nat) {s : St} (I : Inv s) (hf : front s.active < fuel) :
-    (loop U fuel s).2 = .ok ∧ Inv (loop U fuel s).1 := by
+/-- for a program whose bodies never raise: exit or next -/
+theorem iter_spec (U : Universe) [NoRaise U] {s : St} (I : Inv s) :
+    (iter U s = .exit ∧ front s.active = 0) ∨
+    (∃ s', iter U s = .next s' ∧ Inv s' ∧ front s'.active + 1 = front s.active) := by
+  rcases iter_spec_gen U I with h | h | ⟨s', e, h, _, _⟩
+  · exact .inl h
+  · exact .inr h
+  · exfalso
+    cases hact : s.active with
+    | nil => have := I.sentinel; simp [hact] at this
+    | cons a tl =>
+      cases a with
+      | none => rw [iter_exit U hact] at h; cases h
+      | some g =>
+        cases hk : s.kill g with
+        | true => rw [iter_drop U I hact hk] at h; cases h
+        | false =>
+          obtain ⟨_, _, _, _, _, _, _, hit⟩ := iter_run U I hact hk
+          rw [hit] at h; cases h
+
+/-- the run loop: the tables stay coherent; it ends normally or because a body raised — never
+because of the bookkeeping, never by running out of fuel -/
+theorem loop_spec_gen (U : Universe) (fuel : Nat) {s : St} (I : Inv s) (hf : front s.active < fuel) :
+    ((loop U fuel s).2 = .ok ∨ ∃ e, (loop U fuel s).2 = .crashed e) ∧ Inv (loop U fuel s).1 := by
+  induction fuel generalizing s with
+  | zero => omega
+  | succ n ih =>
+    unfold loop
+    rcases iter_spec_gen U I with ⟨he, _⟩ | ⟨s', hn, I', hfr⟩ | ⟨s', e, hc, I', _⟩
+    · simp [he, I]
+    · simp only [hn]
+      exact ih I' (by omega)
+    · simp only [hc]
+      exact ⟨.inr ⟨e, rfl⟩, I'⟩
+
+theorem loop_spec (U : Universe) [NoRaise U] (fuel : Nat) {s : St} (I : Inv s)
+    (hf : front s.active < fuel) : (loop U fuel s).2 = .ok ∧ Inv (loop U fuel s).1 := by
   induction fuel generalizing s with
   | zero => omega
   | succ n ih =>
@@ -607,7 +748,22 @@ theorem loop_spec (U : Universe) (fuel : Nat) {s : St} (I : Inv s) (hf : front s
     · simp only [hn]
       exact ih I' (by omega)
 
-theorem process_spec (U : Universe) {s : St} (I : Inv s) (dt : Int) (hint : List Gen) :
+theorem process_spec_gen (U : Universe) {s : St} (I : Inv s) (dt : Int) (hint : List Gen) :
+    ((process U s dt hint).2 = .ok ∨ ∃ e, (process U s dt hint).2 = .crashed e) ∧
+    Inv (process U s dt hint).1 := by
+  unfold process
+  obtain ⟨h1, I1⟩ := wakePhase_spec I dt hint
+  cases hw : wakePhase s dt hint with | mk s1 o =>
+  rw [hw] at h1 I1
+  simp only at h1 I1
+  subst h1
+  simp only []
+  apply loop_spec_gen U _ I1.rotate
+  have := front_le_length (rotl s1.active)
+  simp only
+  omega
+
+theorem process_spec (U : Universe) [NoRaise U] {s : St} (I : Inv s) (dt : Int) (hint : List Gen) :
     (process U s dt hint).2 = .ok ∧ Inv (process U s dt hint).1 := by
   unfold process
   obtain ⟨h1, I1⟩ := wakePhase_spec I dt hint
@@ -626,7 +782,7 @@ theorem execOp_inv (U : Universe) {s : St} (I : Inv s) (op : Op) : Inv (execOp U
   | start g => exact (start_inv U I g).frame rfl rfl rfl rfl rfl
   | kill g => exact (kill_inv U I g).frame rfl rfl rfl rfl rfl
   | state g => simp only [execOp]; split <;> exact I.frame rfl rfl rfl rfl rfl
-  | process dt hint => exact (process_spec U I dt hint).2.frame rfl rfl rfl rfl rfl
+  | process dt hint => exact (process_spec_gen U I dt hint).2.frame rfl rfl rfl rfl rfl
   | value g => exact I.frame rfl rfl rfl rfl rfl
 
 theorem run_inv (U : Universe) {s : St} (I : Inv s) (ops : List Op) : Inv (run U s ops) := by
